@@ -26,8 +26,11 @@ CLAIMED = {
               "(renumbering after de-duplication, remove_empty_volumes with its queue/rounds, remove_unused_volumes) is "
               "proved to keep the denotation of every surviving non-virtual volume, to delete only volumes containing no "
               "point and to leave no dangling reference (postProcess_preserves; the loop is shown to end with an empty "
-              "queue), for dictionaries with unique keys and no dangling reference — a hypothesis checked at run time on "
-              "every dictionary captured from the code, not derived from the compiler theorem."),
+              "queue), for dictionaries with unique keys and no dangling reference; both are proved of every dictionary "
+              "the conversion loop produces (compiled_closed: syntactic invariant through the mutual recursion of the "
+              "compiler), so the end-to-end statement loop_then_post (conversion loop + post-processing: every live "
+              "cell has a volume with its number containing the point iff the cell does, or none and the cell does "
+              "not) carries no hypothesis on the dictionary."),
         design_ref='§8 C01'),
     'C02': dict(
         technique='Lean 4 proof (polynomial identities + sign witness over an arbitrary ordered field, per card of the mnemonic table) + model↔code correspondence per card + Lean point monitor',
